@@ -11,9 +11,20 @@
    counters, events and termination notices of raw subscribers compared after every step.
 3. (c) concurrent remove | call | terminate | add rounds; hook events (under the service's lock) and
    implementor events validated against Service.tla by TraceService.tla; quiescent probes.
+4. The same object-table specification with ClientSide = TRUE is the specification of the client-side
+   service (bus/service_reference.go, clientService: identifiers 2^31 + counter, one end point handler per
+   object whose closer runs OnTerminate, connection shutdown, Terminate = remove all): TLC design check
+   + deviations, behaviours replayed on a real bus.NewServiceReference over net.Pipe() end points (calls and
+   terminate requests as raw frames from the peer), concurrent rounds with quiescent probes in child
+   processes (a runtime abort or a deadlock is a verdict).
+5. ServiceRace.tla: Remove / Add / Terminate as the steps of racing goroutines with the RWMutex modelled:
+   the code's renderings keep the invariants in every interleaving, the split / read-locked renderings
+   (the classes of defect) break them.  The concurrent rounds start as LOCK CONVOYS (the harness holds
+   the service's lock until every racer is blocked inside the service) so that such windows are hit.
 Self-tests: corrupted expectations must fail the replay, corrupted traces must be rejected.
 """
-import json, os
+import json, os, time
+from concurrent.futures import ThreadPoolExecutor
 from vlib import Infra
 
 DEVS = {
@@ -21,6 +32,18 @@ DEVS = {
     "IdZeroAfterMainRemoved": "UniqueLiveIds",
     "TerminateKeepsObjects": "TerminateHookExactlyOnce",
     "FailedAddLeavesEntry": "NoCrash",
+    # the client-side service
+    "ClientRemoveKeepsEntry": "UniqueLiveIds",
+    "ClientLateCallDropped": "EveryCallAnswered",
+}
+# renderings of ServiceRace.tla that are NOT the code: the invariant each must break
+RACES = {
+    "split_remove": "TerminateHookExactlyOnce",
+    "split_terminate": "TerminateHookExactlyOnce",
+    "split_add": "UniqueLiveIds",
+    "client0_datarace": "NoDataRace",
+    "client0_deadlock": "<deadlock>",
+    "client0_halffixed": "<deadlock>",
 }
 
 
@@ -47,12 +70,12 @@ def split_rounds(path):
     return rs
 
 
-def validate(ctx, rounds, name):
+def validate(ctx, rounds, name, cfg="TraceService.cfg"):
     p = ctx.path("%s.ndjson" % name)
     with open(p, "w") as f:
         for r in rounds:
             f.writelines(r)
-    r = ctx.tlc("TraceService", "TraceService.cfg", workers=1, dfs=True, env={"TRACE": p}, count=False,
+    r = ctx.tlc("TraceService", cfg, workers=1, dfs=True, env={"TRACE": p}, count=False,
                 expect_ok=False, timeout=1800, name=name)
     total = sum(len(x) for x in rounds)
     hwm = None
@@ -79,23 +102,163 @@ def locate(rounds, hwm):
     return len(rounds) - 1, 0
 
 
+def client_side(ctx, thorough):
+    """4. the client-side service: behaviours of Service.tla (ClientSide = TRUE) on a real service reference."""
+    tests = ctx.path("c16-client-tests.ndjson")
+    g = ctx.tlc("GenService", "GenService_client_thorough.cfg" if thorough else "GenService_client.cfg", workers=1,
+                count=False, timeout=3000, env={"SEL": str(ctx.seed % 10)})
+    nt = export(g, "CT", tests)
+    g2 = ctx.tlc("GenService", "GenService_client_seq_thorough.cfg" if thorough else "GenService_client_seq.cfg",
+                 workers=1, count=False, timeout=3000)
+    n = nt + export(g2, "CS", tests, "a")
+    if nt < 10000 or n - nt < 3000:
+        raise Infra("client behaviour export too small: %d + %d" % (nt, n - nt))
+    res = ctx.harness_json("registry", ["c16cseq", tests, "8" if thorough else "6"], timeout=3000)
+    ctx.failures(res["failures"])
+    if res["evaluations"] < n and not res["failures"]:
+        raise Infra("harness replayed %d of %d client behaviours" % (res["evaluations"], n))
+    ctx.traces += res["evaluations"]
+    for s in res["samples"][:2]:
+        ctx.sample(s)
+    ctx.extra.update({"client_behaviours_exported": n, "client_transition_tests": nt, "client_sequence_tests": n - nt,
+                      "client_replayed": res["evaluations"], "client_replay_steps": (res.get("extra") or {}).get("steps"),
+                      "client_replay_fail_count": res.get("fail_count")})
+
+    # self-test of the client replay: corrupted expectations must be noticed
+    if not ctx.violations:
+        st = ctx.path("c16-client-selftest.ndjson")
+        k = 0
+        with open(st, "w") as f:
+            for line in open(tests):
+                t = json.loads(line)
+                last = t[-1]
+                op, obs = last["op"]["op"], last["obs"]
+                if k == 0 and op == "remove" and obs["ret"]["e"] == "err" and last["op"]["inst"] > 0:
+                    obs["ret"]["e"] = ""; f.write(json.dumps(t) + "\n"); k += 1        # "a second Remove succeeds"
+                elif k == 1 and op == "connclose" and sum(obs["term"]) > 0:
+                    obs["term"] = [0] * len(obs["term"]); f.write(json.dumps(t) + "\n"); k += 1   # "shutdown terminates nobody"
+                elif k == 2 and op == "call" and obs["ret"]["e"] == "err":
+                    obs["ret"]["e"] = ""; f.write(json.dumps(t) + "\n"); k += 1        # "a removed object answers"
+                elif k == 3 and op == "add" and last["op"]["inst"] > 1:
+                    obs["idOf"][last["op"]["inst"] - 1] -= 1; f.write(json.dumps(t) + "\n"); k += 1   # "identifier reused"
+                if k == 4:
+                    break
+        sres = ctx.harness_json("registry", ["c16cseq", st, "1"], timeout=600)
+        fc = sres.get("fail_count") or {}
+        if k != 4 or sum(fc.values()) != 4:
+            raise Infra("client replay self-test: corrupted expectations not all detected (%d built): %s" % (k, fc))
+        ctx.extra["client_replay_selftest"] = fc
+
+    # concurrent rounds in child processes: lock convoys on objectsMutex, quiescent probes, trace validation
+    rounds = 12000 if thorough else 1200
+    tp = ctx.path("c16-client-conc.ndjson")
+    cres = ctx.harness_json("registry", ["c16cconc", tp, str(rounds), "4" if thorough else "3"], timeout=3000)
+    ctx.failures(cres["failures"])
+    if cres["evaluations"] < rounds and not cres["failures"]:
+        raise Infra("client concurrent rounds: %d of %d ran" % (cres["evaluations"], rounds))
+    rs = split_rounds(tp) if os.path.exists(tp) else []
+    if len(rs) + sum((cres.get("fail_count") or {}).values()) < cres["evaluations"] and not cres["failures"]:
+        raise Infra("client: recorded %d rounds of %d" % (len(rs), rounds))
+    validated, rejected, first_ok = validate_rounds(ctx, rs, "c16-client-trace", "TraceService_client.cfg", "client/conc")
+    ex = cres.get("extra") or {}
+    ctx.extra.update({"client_conc_rounds": cres["evaluations"], "client_conc_fail_count": cres.get("fail_count"),
+                      "client_conc_rounds_validated": validated, "client_conc_rounds_rejected": rejected,
+                      "client_conc_starts": {k[6:]: v for k, v in ex.items() if k.startswith("start_")},
+                      "client_convoy_racers": ex.get("convoy_racers"),
+                      "client_convoy_racers_seen_blocked": ex.get("convoy_racers_seen_blocked")})
+    if rs:
+        ctx.sample({"client_trace": [json.loads(x) for x in rs[0]][:20]})
+    # self-test: a second successful removal of one identifier / a hook that never runs must be rejected
+    if first_ok is not None and not ctx.violations:
+        muts = []
+        for rnd in first_ok:
+            h = [json.loads(x) for x in rnd]
+            ks = [x["k"] for x in h]
+            if "remove" in ks and not any(n == "removed-twice" for n, _ in muts):
+                i = ks.index("remove")
+                muts.append(("removed-twice", h[:i + 1] + [dict(h[i])] + h[i + 1:]))
+            if "remove" in ks and "onterminate" in ks and "connclose" not in ks and not any(n == "never" for n, _ in muts):
+                muts.append(("never", [x for x in h if x["k"] != "onterminate"]))
+            if len(muts) == 2:
+                break
+        for name, m in muts:
+            bad, r = validate(ctx, [[json.dumps(x) + "\n" for x in m]], "c16-client-trace-selftest-" + name,
+                              "TraceService_client.cfg")
+            if bad is None:
+                raise Infra("client trace self-test: corrupted trace (%s) accepted by TraceService" % name)
+        if len(muts) < 2:
+            raise Infra("client trace self-test could not build its corrupted traces")
+        ctx.extra["client_trace_selftest"] = [n for n, _ in muts]
+    elif not ctx.violations and not ctx.known_hit:
+        raise Infra("no client trace was validated")
+
+
+def validate_rounds(ctx, rs, name, cfg, prefix):
+    """TLC validates the recorded rounds; a rejected round is a failure of the code, the rest is re-submitted."""
+    rejected = validated = 0
+    first_ok = None
+    part = rs
+    while part:
+        bad, r = validate(ctx, part, name, cfg)
+        if bad is None:
+            validated += len(part)
+            first_ok = first_ok or part
+            ctx.states += r.distinct
+            ctx.transitions += r.generated
+            break
+        why, hwm = bad
+        i, rec = locate(part, hwm)
+        rejected += 1
+        h = [json.loads(x) for x in part[i]]
+        ev = h[rec - 1] if 0 < rec <= len(h) else {}
+        ctx.failure(prefix + "/trace-rejected-at-" + str(ev.get("k", "unknown")),
+                    "the recorded execution is not a behaviour of Service.tla (%s; at event %d: %s)" %
+                    (why, rec, json.dumps(ev)),
+                    {"round": h[0].get("round"), "seed": ctx.seed, "at": rec, "trace": h})
+        validated += i
+        part = part[i + 1:]
+        if rejected >= 5:
+            break
+    ctx.traces += validated + rejected
+    return validated, rejected, first_ok
+
+
 def run(ctx):
     thorough = ctx.tier == "thorough"
+    t0 = [time.time()]
+    phases = ctx.extra.setdefault("phase_wall_s", {})
+
+    def phase(name):
+        phases[name] = round(time.time() - t0[0], 1)
+        t0[0] = time.time()
     # 1. design
     ctx.design_check("Service", "MCService_thorough.cfg" if thorough else "MCService.cfg",
                      workers=10 if thorough else 6, timeout=3000, coverage=thorough)
-    dev = {}
-    for d, inv in DEVS.items():
-        r = ctx.tlc("Service", "MCService_dev_%s.cfg" % d, workers=2, timeout=600, expect_ok=False, count=False)
+    ctx.design_check("Service", "MCService_client_thorough.cfg" if thorough else "MCService_client.cfg",
+                     workers=4, timeout=3000, coverage=thorough)
+    ctx.design_check("ServiceRace", "MCServiceRace_thorough.cfg" if thorough else "MCServiceRace.cfg",
+                     workers=6, timeout=3000)
+    ctx.design_check("ServiceRace", "MCServiceRace_client_thorough.cfg" if thorough else "MCServiceRace_client.cfg",
+                     workers=6, timeout=3000)
+
+    def dev_run(job):
+        module, cfg, inv, label = job
+        r = ctx.tlc(module, cfg, workers=2, timeout=900, expect_ok=False, count=False)
         if inv not in r.violated:
-            raise Infra("Service with Dev_%s should violate %s, got %s" % (d, inv, r.violated))
-        dev["Dev_" + d] = inv
-    ctx.extra["deviation_models"] = dev
+            raise Infra("%s with %s should violate %s, got %s" % (module, label, inv, r.violated))
+        return label, inv
+    jobs = [("Service", "MCService_dev_%s.cfg" % d, inv, "Dev_" + d) for d, inv in DEVS.items()]
+    jobs += [("ServiceRace", "MCServiceRace_%s.cfg" % d, inv, d) for d, inv in RACES.items()]
+    with ThreadPoolExecutor(max_workers=4) as ex:
+        done = list(ex.map(dev_run, jobs))
+    ctx.extra["deviation_models"] = {l: i for l, i in done if l.startswith("Dev_")}
+    ctx.extra["race_renderings_broken"] = {l: i for l, i in done if not l.startswith("Dev_")}
+    phase("design")
 
     # 2. behaviours
     tests = ctx.path("c16-tests.ndjson")
     g = ctx.tlc("GenService", "GenService_thorough.cfg" if thorough else "GenService.cfg", workers=1, count=False,
-                timeout=3000, env={"SEL": str(ctx.seed % 40)})
+                timeout=3000, env={"SEL": str(ctx.seed % (40 if thorough else 2))})
     n = export(g, "T", tests)
     nt = n
     g2 = ctx.tlc("GenService", "GenService_seq_thorough.cfg" if thorough else "GenService_seq.cfg", workers=1,
@@ -114,6 +277,7 @@ def run(ctx):
                       "replayed": res["evaluations"], "replay_steps": (res.get("extra") or {}).get("steps"),
                       "replay_fail_count": res.get("fail_count")})
 
+    phase("replay")
     # self-test of the replay
     if not ctx.violations:
         st = ctx.path("c16-selftest.ndjson")
@@ -145,38 +309,18 @@ def run(ctx):
         ctx.extra["replay_selftest"] = fc
 
     # 3. concurrent rounds -> TraceService
-    rounds = 1600 if thorough else 240
+    rounds = 6400 if thorough else 960
     tp = ctx.path("c16-conc.ndjson")
     cres = ctx.harness_json("registry", ["c16conc", tp, str(rounds), "4" if thorough else "3"], timeout=3000)
     ctx.failures(cres["failures"])
     rs = split_rounds(tp) if os.path.exists(tp) else []
     if len(rs) + sum((cres.get("fail_count") or {}).values()) < cres["evaluations"] and not cres["failures"]:
         raise Infra("recorded %d rounds of %d" % (len(rs), rounds))
-    rejected = validated = 0
-    first_ok = None
-    part = rs
-    while part:
-        bad, r = validate(ctx, part, "c16-trace")
-        if bad is None:
-            validated += len(part)
-            first_ok = first_ok or part
-            ctx.states += r.distinct
-            ctx.transitions += r.generated
-            break
-        why, hwm = bad
-        i, rec = locate(part, hwm)
-        rejected += 1
-        h = [json.loads(x) for x in part[i]]
-        ev = h[rec - 1] if 0 < rec <= len(h) else {}
-        ctx.failure("service/conc/trace-rejected-at-" + str(ev.get("k", "unknown")),
-                    "the recorded execution is not a behaviour of Service.tla (%s; at event %d: %s)" %
-                    (why, rec, json.dumps(ev)),
-                    {"round": h[0].get("round"), "seed": ctx.seed, "at": rec, "trace": h})
-        validated += i
-        part = part[i + 1:]
-        if rejected >= 5:
-            break
-    ctx.traces += validated + rejected
+    validated, rejected, first_ok = validate_rounds(ctx, rs, "c16-trace", "TraceService.cfg", "service/conc")
+    ex = cres.get("extra") or {}
+    ctx.extra.update({"conc_starts": {k[6:]: v for k, v in ex.items() if k.startswith("start_")},
+                      "convoy_racers": ex.get("convoy_racers"),
+                      "convoy_racers_seen_blocked": ex.get("convoy_racers_seen_blocked")})
     ctx.extra.update({"conc_rounds": len(rs), "conc_events": (cres.get("extra") or {}).get("operations"),
                       "conc_rounds_validated": validated, "conc_rounds_rejected": rejected,
                       "conc_fail_count": cres.get("fail_count")})
@@ -216,13 +360,23 @@ def run(ctx):
     elif not ctx.violations and not ctx.known_hit:
         raise Infra("no trace was validated")
 
+    phase("concurrent+trace")
+    client_side(ctx, thorough)
+    phase("client")
+
     ctx.extra["explanation"] = (
-        "exhaustive TLC check of the service's object table; every transition of the bounded state graph and "
-        "every operation sequence up to the given depth replayed on a real bus.Service with the counters compared "
-        "after every step; concurrent rounds validated against the same specification through hook events")
+        "exhaustive TLC check of the object table of a service and of a client-side service reference (one "
+        "specification, ClientSide switch) and of the racing-goroutine renderings of Remove / Add / Terminate; every "
+        "transition of the bounded state graphs and every operation sequence up to the given depth replayed on a "
+        "real bus.Service and on a real service reference over a pipe with the counters compared after every step; "
+        "concurrent rounds started as lock convoys, validated against the same specification through hook events "
+        "and probed at quiescence")
     ctx.assumptions += [
         "identifiers are compared through the object they denote (they are random in the code)",
         "a call that races a removal may still run (it was addressed before the removal): only calls sent after "
         "every operation has returned must be refused",
-        "the model bounds the counters (MaxExec, MaxEmit = 1) and the objects (3, 4 in the thorough tier)",
+        "the model bounds the counters (MaxExec, MaxEmit = 1) and the objects (3, 4 in the thorough tier; client "
+        "side 4, 5)",
+        "the lock convoy reads the number of goroutines blocked on the sync.RWMutex from its state words "
+        "(go1.23 layout); if that fails it waits a settle delay, if the lock is unreachable the round runs free",
     ]
